@@ -560,6 +560,68 @@ pub fn run(tier: Tier) -> i32 {
             }
         }
     }
+    // ---- literals that reach their place of use through a name: a let constant, a function parameter, a
+    // named default — as a value of their own and as a hole of an f-string. The value must be the one the
+    // literal has when written in place; the f-string must be the concatenation of that value (the engine's
+    // own text conversion of it) with the constant text around it.
+    {
+        const LITS: &[&str] = &["'x'", "\"it's\"", "r\"C:\\dir\"", "r'a\"b'", "'a\\\\b'", "''", "' '", "7", "-3", "0", "2.0", "0.5", "1e3", "-2.50", "true", "false", "@2024-02-29", "@10:30:00", "@2024-02-29T10:30:00"];
+        let db = Db::new();
+        for d in &crate::relcheck::EXEC_DIALECTS {
+            for lit in LITS {
+                // the literal written in place
+                let direct = format!("from [{{z = 1}}]\nselect {{x = {lit}}}");
+                let Ok(dsql) = compile(&direct, *d, false) else { continue };
+                let Ok((_, drows)) = db.query(&dsql) else { continue };
+                let Some(v) = drows.first().and_then(|r| r.first()).cloned() else { continue };
+                // what the engine makes of '[' || value || ']'
+                let want_text = {
+                    let st = db.query(&format!("SELECT '[' || ({}) || ']'", {
+                        // the value expression of the direct statement: between SELECT and AS x
+                        let up = dsql.replace('\n', " ");
+                        let a = up.find("SELECT").map(|i| i + 6).unwrap_or(0);
+                        let z = up.rfind(" AS x").unwrap_or(up.len());
+                        up[a..z].trim().to_string()
+                    }));
+                    st.ok().and_then(|(_, r)| r.first().and_then(|r| r.first()).cloned())
+                };
+                let through: Vec<(&str, String, bool)> = vec![
+                    ("let-constant", format!("let v = {lit}\nfrom [{{z = 1}}]\nselect {{x = v}}"), false),
+                    ("function-parameter", format!("let idf = p -> p\nfrom [{{z = 1}}]\nselect {{x = idf {lit}}}"), false),
+                    ("named-default", format!("let idf = q d:{} -> d\nfrom [{{z = 1}}]\nselect {{x = idf 0}}", if lit.starts_with('-') || lit.starts_with('@') { format!("({lit})") } else { lit.to_string() }), false),
+                    ("f-string-hole-let-constant", format!("let v = {lit}\nfrom [{{z = 1}}]\nselect {{x = f\"[{{v}}]\"}}"), true),
+                    ("f-string-hole-function-parameter", format!("let lab = p -> f\"[{{p}}]\"\nfrom [{{z = 1}}]\nselect {{x = lab {lit}}}"), true),
+                    ("f-string-hole-in-place", format!("from [{{z = 1}}]\nselect {{x = f\"[{{{lit}}}]\"}}"), true),
+                ];
+                for (how, src, is_f) in through {
+                    run.validated += 1;
+                    run.count("literals_through_names:cases", 1);
+                    let Ok(sql) = compile(&src, *d, false) else {
+                        run.count("literals_through_names:not_compiled", 1);
+                        continue;
+                    };
+                    let got = db.query(&sql).ok().and_then(|(_, r)| r.first().and_then(|r| r.first()).cloned());
+                    let want = if is_f { want_text.clone() } else { Some(v.clone()) };
+                    if got.is_none() || want.is_none() {
+                        run.count("literals_through_names:not_executable", 1);
+                        continue;
+                    }
+                    // an empty hole value: the engine's CONCAT and || agree on text, not on NULL; null is not in the list
+                    let same = match (&got, &want) {
+                        (Some(a), Some(b)) => a == b,
+                        _ => false,
+                    };
+                    if !same {
+                        run.violate(
+                            Some(format!("literal-through-name-changes-value:{how}")),
+                            format!("[{}] {} → {} returns {:?}; the literal in place gives {:?}", dname(*d), src.replace('\n', " | "), sql.replace('\n', " "), got.map(|g| g.show()), want.map(|g| g.show())),
+                            json!({"driver":"through-name","source": src, "dialect": dname(*d), "sql": sql}),
+                        );
+                    }
+                }
+            }
+        }
+    }
     run.states = values.len() as u64 + nums.len() as u64 + OTHER.len() as u64;
     run.transitions = run.validated;
     run.set("bounds", json!({"string_alphabet": SIGMA.iter().map(|c| c.escape_default().to_string()).collect::<Vec<_>>(), "max_len": maxlen, "values": values.len(), "spellings": ["single-quoted","double-quoted","triple-single","triple-double","raw-single","raw-double","unicode-escapes","hex-escapes","f-string constant","relation-literal cell"], "number_alphabet": NUM_SIGMA.iter().collect::<String>(), "number_max_len": tier.pick(4, 5), "other_literals": OTHER.len(), "executed": ["sqlite","generic"], "format": [false, true], "tokenised_dialects": 12}));
